@@ -635,6 +635,8 @@ class MySQLParser(SQLParser):
     def from_table_aliased(self, p):
         entity = p.from_table
         if hasattr(p, 'identifier'):
+            if len(p.identifier.parts) > 1:
+                raise ParsingException('Alias can not contain multiple parts (dots).')
             entity.alias = p.identifier
         if hasattr(p, 'dquote_string'):
             entity.alias = self.string_to_identifier(p.dquote_string)
@@ -704,6 +706,8 @@ class MySQLParser(SQLParser):
             alias = self.string_to_identifier(p.dquote_string)
         else:
             alias = p.identifier
+        if len(alias.parts) > 1:
+            raise ParsingException('Alias can not contain multiple parts (dots).')
         col.alias = alias
         return col
 
